@@ -30,6 +30,8 @@ type CaseC13 struct {
 	Cycle     bool                     `json:"cycle,omitempty"` // the schedule repeats instead of falling back to one byte per read
 	EOFWith   bool                     `json:"eof_with"`
 	Bufio     bool                     `json:"bufio"`
+	Huge      int                      `json:"huge,omitempty"`       // > 0: document HugeAt carries a string of that many bytes (one document longer than 64 KiB); expanded at check time
+	HugeAt    int                      `json:"huge_at,omitempty"`
 	Respell   int                      `json:"respell,omitempty"` // JSON documents are respelled (see respellJSON) before they go into the stream
 	Align     int                      `json:"align,omitempty"`   // > 0: blanks before document AlignDoc make it END on a multiple of Align bytes (buffer and block boundaries)
 	AlignDoc  int                      `json:"align_doc,omitempty"`
@@ -191,6 +193,10 @@ func genC13(t *rapid.T) CaseC13 {
 			c.Respell = rapid.IntRange(1, 15).Draw(t, "respellmode")
 		}
 	}
+	if rapid.IntRange(0, 59).Draw(t, "huge") == 23 {
+		c.Huge = rapid.SampledFrom([]int{65536, 70000, 140000}).Draw(t, "hugesize")
+		c.HugeAt = rapid.IntRange(0, nd-1).Draw(t, "hugeat")
+	}
 	if rapid.IntRange(0, 9).Draw(t, "align") == 0 {
 		c.Align = rapid.SampledFrom([]int{512, 1024, 4096, 4096, 4096, 8192}).Draw(t, "alignto")
 		c.AlignDoc = rapid.IntRange(0, nd-1).Draw(t, "aligndoc")
@@ -240,6 +246,23 @@ func checkC13(c CaseC13, info *Info) *Failure {
 	defer resetOptions()
 	applyUnrelatedOptions(c.DecOpts)
 	info.ClassIf(c.DecOpts != 0, "non-default decoder options in force")
+	if c.Huge > 0 {
+		pad := strings.Repeat("p", c.Huge)
+		if len(c.JDocs) > 0 {
+			docs := append([]map[string]interface{}(nil), c.JDocs...)
+			d := copyMap(docs[c.HugeAt%len(docs)])
+			d["pad"] = pad
+			docs[c.HugeAt%len(docs)] = d
+			c.JDocs = docs
+		} else {
+			docs := append([]*XElem(nil), c.XDocs...)
+			d := *docs[c.HugeAt%len(docs)]
+			d.Attrs = append(append([]XAttr(nil), d.Attrs...), XAttr{Local: "pad", Value: pad})
+			docs[c.HugeAt%len(docs)] = &d
+			c.XDocs = docs
+		}
+		info.Class("a document longer than 64 KiB in the stream")
+	}
 	// build the stream and the expected Maps (direct decoding of each document's own bytes)
 	var stream bytes.Buffer
 	var docs [][]byte
